@@ -2,7 +2,7 @@
 From Coq Require Import NArith List Bool.
 Import ListNotations.
 From DV Require Import Base.Outcome Base.Bytes Base.Lex Base.Names.
-From DV Require Import C17.Model C17.Proofs C18.Model C14.Gen C14.Model C14.Proofs C14.ProofsDenial C14.ProofsSig C14.ProofsL2H C14.ModelN3 C14.ProofsN3 C14.ModelChain C14.ProofsChain C14.ModelDs C14.ProofsDs.
+From DV Require Import C17.Model C17.Proofs C18.Model C14.Gen C14.Model C14.Proofs C14.ProofsDenial C14.ProofsSig C14.ProofsL2H C14.ModelN3 C14.ProofsN3 C14.ModelChain C14.ProofsChain C14.ModelDs C14.ProofsDs C14.ModelTa C14.ProofsTa C14.ModelWild C14.ProofsWild.
 Local Open Scope N_scope.
 
 Theorem C14_nsec_in_range_spec : forall t o n,
@@ -271,3 +271,61 @@ Theorem C14_insecure_only_with_no_ds_proof : forall H ci cb t gs,
   exists g, In g gs /\ (nsec_no_ds_proof t g \/ nsec3_no_ds_proof H ci cb t g).
 Proof. exact insecure_only_with_no_ds_proof. Qed.
 Print Assumptions C14_insecure_only_with_no_ds_proof.
+
+(* ---- the signature cache and the clock *)
+Theorem C14_check_sig_cached_time_sound : sig_cache_checks_time_first = true -> forall c s,
+  check_sig_cached c s = true -> sig_time_ok (s_now s) (s_inception s) (s_expiration s) = true.
+Proof. exact check_sig_cached_time_sound. Qed.
+Print Assumptions C14_check_sig_cached_time_sound.
+
+Theorem C14_revalidate_sound : sig_cache_checks_time_first = true -> forall n1 n2 i e,
+  revalidate n1 n2 i e = Ok true -> sig_time_ok n2 i e = true.
+Proof. exact revalidate_sound. Qed.
+Print Assumptions C14_revalidate_sound.
+
+Theorem C14_revalidate_refuted : sig_cache_checks_time_first = false -> sig_time_is_canonical = false ->
+  exists n1 n2 i e, sig_time_ok n2 i e = false /\
+    (revalidate n1 n2 i e = Ok true \/ exists p, revalidate n1 n2 i e = Panic p).
+Proof. exact revalidate_refuted. Qed.
+Print Assumptions C14_revalidate_refuted.
+
+Theorem C14_revalidate_total : sig_cache_checks_time_first = true -> sig_time_is_canonical = false ->
+  forall n1 n2 i e, u32 n2 -> u32 i -> u32 e ->
+  (ttl_for_sig_wraps = true \/ n2 < 2147483648) -> no_panic (revalidate n1 n2 i e).
+Proof. exact revalidate_total. Qed.
+Print Assumptions C14_revalidate_total.
+
+Theorem C14_ttl_underflow_refuted : ttl_for_sig_wraps = false ->
+  exists now exp, now < 4294967296 /\ exp < 4294967296 /\ rfc_lt now exp /\ ttl_until_expired now exp = Panic 1.
+Proof. exact ttl_underflow_refuted. Qed.
+Print Assumptions C14_ttl_underflow_refuted.
+
+(* ---- trust anchor step *)
+Theorem C14_anchor_secure_implies_anchored_key : forall dg vf tas keys sigs maxbad,
+  trust_anchor_state dg vf tas keys sigs maxbad = Secure ->
+  exists a k s, In a tas /\ In k keys /\ In s sigs /\ anchored dg a k /\ sg_tag s = k_tag k /\ vf k s = true.
+Proof. exact anchor_secure_implies_anchored_key. Qed.
+Print Assumptions C14_anchor_secure_implies_anchored_key.
+
+Theorem C14_anchor_never_insecure : forall dg vf tas keys sigs maxbad,
+  trust_anchor_state dg vf tas keys sigs maxbad = Secure \/ trust_anchor_state dg vf tas keys sigs maxbad = Bogus.
+Proof. exact anchor_never_insecure. Qed.
+Print Assumptions C14_anchor_never_insecure.
+
+(* ---- wildcard-expanded answers *)
+Theorem C14_wildcard_secure_sound : forall H ci cb sname signer ce ngs n3gs,
+  wildcard_answer_state H ci cb sname Secure signer (Some ce) ngs n3gs = Ok Secure ->
+  name_eqb sname (star_label :: ce) = true \/
+  (exists g, In g ngs /\ usable g signer /\ covers sname g /\
+             name_eqb ce (nsec_closest_encloser sname (g_owner g) (g_next g)) = true) \/
+  (exists c g oh, child_of_ce sname ce = Some c /\ In g n3gs /\ usable3 ci cb g signer oh /\
+             nsec3_in_range (hash_of H g c) oh (h_next g) = true /\ h_optout g = false).
+Proof. exact wildcard_secure_sound. Qed.
+Print Assumptions C14_wildcard_secure_sound.
+
+Theorem C14_wildcard_answer_total : forall H ci cb sname st signer oce ngs n3gs,
+  Forall wf_group ngs -> label_to_hash_expects = false ->
+  (forall ce, oce = Some ce -> (length ce < length sname)%nat) ->
+  no_panic (wildcard_answer_state H ci cb sname st signer oce ngs n3gs).
+Proof. exact wildcard_answer_total. Qed.
+Print Assumptions C14_wildcard_answer_total.
